@@ -46,3 +46,16 @@ package network
 // (5) frame: no other (identifier, sender) slot is touched
 //@   ensures forall k string, s sharing.ID :: old(has(c.boxes, k)) && (k != cid || s != from) ==> has(c.boxes, k) && has(c.boxes[k].payloads, s) == old(has(c.boxes[k].payloads, s)) && c.boxes[k].payloads[s] == old(c.boxes[k].payloads[s])
 //@   ensures old(c.fatal) != nil ==> c.fatal == old(c.fatal)
+
+// ---------------------------------------------------------------- per-message validation with blame (C04)
+// Success means every listed sender's message is present and its Validate returned nil; a failure blames
+// exactly the sender whose message was missing or invalid.
+//@ pure func msgOK(p V, messages V, id sharing.ID) bool = res(messages.Get(id), 1) && res(messages.Get(id), 0).Validate(p, id) == nil
+
+//@ func ValidateIncomingMessages
+//@   property C04
+//@   purefn
+//@   ensures err == nil ==> forall a Int :: 0 <= a && a < seqlen(senders) ==> msgOK(p, messages, seqat(senders, a, int))
+//@   ensures err != nil ==> exists a Int :: 0 <= a && a < seqlen(senders) && !msgOK(p, messages, seqat(senders, a, int)) && culprit(err, seqat(senders, a, int)) && (forall x V :: culprit(err, x) ==> (x == box(seqat(senders, a, int)) || culprit(res(messages.Get(seqat(senders, a, int)), 0).Validate(p, seqat(senders, a, int)), x)))
+//@   loop range(senders)
+//@     invariant forall a Int :: 0 <= a && a < $i ==> msgOK(p, messages, seqat(senders, a, int))
